@@ -295,7 +295,8 @@ CLAIMED = {
         ref='DESIGN.md §7 C03'),
     'C04': dict(
         technique='Lean 4 proof: inductive invariants over all interleavings of a pc-machine model of the pipeline (one step per '
-                  'sync-facade operation) + slot/payload layer; stage wiring and slot addressing of the models proved equal to definitions regenerated '
+                  'sync-facade operation) + slot/payload layer; one pass of the handler loop (next, batch range, end-of-batch flag, cursor store; both run twins) '
+                  'regenerated from consumer/batch_event_processor.rs and proved to be the model\'s consumer steps (Props/C04Gen.lean); stage wiring and slot addressing of the models proved equal to definitions regenerated '
                   'from the DSL builder and the ring buffer on every run (Props/C13Gen.lean, Props/C05Gen.lean) + trace replay of real executions under a deterministic scheduler '
                   '(random schedules and a bounded-preemption search) on the model and on executable property oracles',
         text='Single-producer pipelines (every ring size, stage/handler topology, batch list, spin and blocking wait, every '
